@@ -61,8 +61,13 @@ DEFAULT_NAMES = None   # C19 installs a hostile name provider here
 EXCLUDE_KINDS = set()  # C19: kinds whose type text needs `std` (the definitions live in a no_std crate)
 
 
+OPTS_PATCH = {}        # C19's directed workload forces shapes here (kind, min_fields, force_style)
+
+
 def random_type(rng, traits, opts=None):
     o = opts or Opts()
+    for _k, _v in OPTS_PATCH.items():
+        setattr(o, _k, _v)
     if o.names is None and DEFAULT_NAMES is not None:
         o.names = DEFAULT_NAMES
         o.raw_idents = 0.0
@@ -161,6 +166,8 @@ def random_type(rng, traits, opts=None):
     def mk_variant(name, allow_unit=True):
         styles = ["tuple", "named"] + (["unit"] if allow_unit and min_fields == 0 else [])
         style = rng.choice(styles)
+        if getattr(o, "force_style", None):
+            style = o.force_style
         used_names.clear()
         if style == "unit":
             return Variant(name, "unit", [])
@@ -275,6 +282,11 @@ def random_type(rng, traits, opts=None):
             f.sem["_constarr"] = True
         else:
             td.params = [p for p in td.params if p["kind"] != "const"]
+    # const parameters need not come last: `<const N: usize, G>` is legal
+    nonlt = [p for p in td.params if p["kind"] != "lt"]
+    if len(nonlt) >= 2 and any(p["kind"] == "const" for p in nonlt) and rng.random() < 0.4:
+        rng.shuffle(nonlt)
+        td.params = [p for p in td.params if p["kind"] == "lt"] + nonlt
     if td.params and td.params[-1]["kind"] == "ty" and rng.random() < 0.25:
         td.params[-1]["default"] = td.params[-1]["arg"]
 
